@@ -298,3 +298,74 @@ Section Local.
       + intros m. rewrite tr_present_S, Ety. reflexivity.
   Qed.
 End Local.
+
+(* ---------------------------------------------------------------- decoding keeps messages sorted at every level *)
+Section WfLevel.
+  Variable orc : oracles.
+  Variable e : env.
+
+  Lemma tr_member_wf d dp p v m seen m1 seen1 :
+    (forall m m', wf m -> dp v m = Ok m' -> wf m') ->
+    wf m -> tr_member d dp p v m seen = Ok (m1, seen1) -> wf m1.
+  Proof.
+    intros Hdp W H. unfold tr_member in H. destruct (max_nesting_depth <? d + 1); [discriminate|].
+    destruct v; try (injection H as <- _; exact W);
+      (destruct (mem_bytes (p_json p) seen); [discriminate|]);
+      (destruct (oneof_conflict p m); [discriminate|]);
+      match type of H with obind (dp ?v m) _ = _ => destruct (dp v m) as [m2| | |] eqn:E end; try discriminate;
+      cbn [obind] in H; injection H as <- _; exact (Hdp _ _ W E).
+  Qed.
+
+  Lemma oneof_post_wf props m found c m' : wf m -> oneof_post props m found c = Ok m' -> wf m'.
+  Proof.
+    intros W H. unfold oneof_post in H.
+    destruct (N.of_nat (length found) =? 0).
+    - destruct c as [c|]; [|injection H as <-; exact W].
+      destruct (find_prop props c) as [p|]; [|discriminate]. exact (create_effect_wf p m m' W H).
+    - destruct (1 <? N.of_nat (length found)); [discriminate|].
+      destruct c as [c|]; [|injection H as <-; exact W].
+      destruct (index0 found) as [k0| | |]; cbn [obind] in H; try discriminate.
+      destruct (bytes_eqb k0 c); [injection H as <-; exact W|discriminate].
+  Qed.
+
+  Lemma wfl_step f : wfl orc e f -> wfl orc e (S f).
+  Proof.
+    intros IH. pose proof IH as (Wp & Wo & Wn). split; [|split].
+    - intros d p j m m' W H. destruct (p_path p) as [|a r] eqn:Ep.
+      + (* no proto path: only an exposed oneof stores anything *)
+        rewrite tr_present_S in H. rewrite Ep in H.
+        destruct (p_ty p);
+          repeat match type of H with
+                 | match ?t with _ => _ end = _ => destruct t eqn:?; try discriminate
+                 | (if ?b then _ else _) = _ => destruct b eqn:?; try discriminate
+                 | obind ?t _ = _ => destruct t eqn:?; cbn [obind] in H; try discriminate
+                 end; try discriminate.
+        exact (Wn _ _ _ _ _ _ _ _ W H).
+      + destruct (shape_of orc e f d p j IH ltac:(congruence)) as [r0 Hr Hc | K HK Hc].
+        * rewrite Hc in H. subst r0. discriminate.
+        * rewrite Hc in H. unfold omap in H.
+          destruct (with_holder (p_path p) m K) as [[m1 x]| | |] eqn:E; cbn [obind fst] in H; try discriminate.
+          injection H as <-. apply (with_holder_wf K (fun n h h' x0 Wh HH => sup_wf _ _ (HK n) h h' x0 Wh HH) _ _ _ _ W E).
+    - intros d props ms m seen m' W H. rewrite tr_object_S in H. destruct ms as [|[key v] r]; [injection H as <-; exact W|].
+      destruct (find_prop props key) as [p|]; [|discriminate].
+      destruct (tr_member d (tr_present orc e f (d + 1) p) p v m seen) as [[m1 seen1]| | |] eqn:Em; cbn [obind fst snd] in H; try discriminate.
+      apply (Wo _ _ _ _ _ _ (tr_member_wf _ _ _ _ _ _ _ _ (fun m0 m0' => Wp _ _ _ m0 m0') W Em) H).
+    - intros d props ms m seen found c m' W H. rewrite tr_oneof_S in H. destruct ms as [|[key v] r].
+      + exact (oneof_post_wf _ _ _ _ _ W H).
+      + destruct (bytes_eqb key type_key).
+        * destruct v; try discriminate. exact (Wn _ _ _ _ _ _ _ _ W H).
+        * destruct (find_prop props key) as [p|]; [|discriminate].
+          destruct (tr_member d (tr_present orc e f (d + 1) p) p v m seen) as [[m1 seen1]| | |] eqn:Em; cbn [obind fst snd] in H; try discriminate.
+          apply (Wn _ _ _ _ _ _ _ _ (tr_member_wf _ _ _ _ _ _ _ _ (fun m0 m0' => Wp _ _ _ m0 m0') W Em) H).
+  Qed.
+
+  Lemma wfl_all f : wfl orc e f.
+  Proof.
+    induction f as [|f IH]; [|apply wfl_step; exact IH].
+    split; [|split]; intros; discriminate.
+  Qed.
+
+  (* unconditional versions *)
+  Lemma shape_total f d p j : p_path p <> [] -> shape orc e f d p j.
+  Proof. apply shape_of. apply wfl_all. Qed.
+End WfLevel.
